@@ -2,6 +2,7 @@
 kinds count (K1), ContinueAfter is silent and does not consult the scheduler (K3/K4), time limit between iterations (K1)."""
 from engine import kinds
 from engine.facts import Site, Slicer, norm, operand_local, control_deps, last_field
+from engine.slicing import FlowSlicer, expand_closure_labels
 
 CRATES = {"shuttle_engine", "shuttle_schedulers", "shuttle"}
 EXPLANATION = (
@@ -90,8 +91,22 @@ def r2_both_kinds_count(ctx):
         ok = any(kinds.mentions_field(b, s, S + ".steps") for s in b.sites()) and any("Vec::push" in c for s, t in b.calls() for c in b.callees_of_call(t, passed=False))
         ctx.ob("C13.R2", "counts|" + m, ok, "Schedule::%s pushes onto `steps` (so it counts towards the bound)" % m, loc=b.loc())
     w = kinds.writers_of_field(prog, E + "ExecutionState.steps_reset_at", None, kinds=("assign", "call_dst", "refmut"))
-    kinds.check_who_may(ctx, "C13.R2", "writer of steps_reset_at", set(w), {"shuttle_engine::current::reset_step_count"},
-                        {k: v[0][0].loc(v[0][1]) for k, v in w.items()})
+    # whoever resets the count must record it in the unit the predicate measures in: the current schedule length (task steps AND
+    # random draws).  (This replaces a who-may-write table: moving the write into a helper is fine, writing another counter is not.)
+    n = 0
+    for k, sites in sorted(w.items()):
+        for b, s, kind in sites:
+            n += 1
+            st = b.at(s)
+            ok = False
+            if kind == "assign" and st.get("k") == "assign":
+                labs = expand_closure_labels(prog, FlowSlicer(b, control=False).operand_labels(st["rv"]["ops"][0], s)) if st["rv"].get("ops") else set()
+                ok = ("call:" + CS + "len") in labs and not any(l.startswith("field:") and l.endswith(("context_switches", ".steps")) for l in labs)
+            ctx.ob("C13.R2", "reset-in-schedule-length-units|" + k, ok,
+                   "`%s` sets steps_reset_at to CurrentSchedule::len()" % k if ok else
+                   "`%s` writes steps_reset_at from something other than CurrentSchedule::len(): the predicate subtracts it from the schedule length, "
+                   "so a reset would start the count at the wrong value (random draws are steps too)" % k, loc=b.loc(s))
+    ctx.floor("C13.R2", "writes of steps_reset_at", n, 1)
 
 
 def r3_continue_after(ctx):
